@@ -1218,6 +1218,10 @@ func (h *histRun) checkCache(entries []rescache.VerifEntry, snaps map[string]ser
 				}
 			}
 		}
+		for _, q := range e.DeadLinks {
+			h.viol(Viol{Prop: "C13", T: now, RID: e.Name, Sig: "deadLink",
+				Msg: fmt.Sprintf("cache entry %s links raw query %q to a query resource (%q) that is no longer registered", e.Name, q, e.Links[q])})
+		}
 		if e.Count < 0 {
 			h.viol(Viol{Prop: "C09", T: now, RID: e.Name, Sig: "negativeCount", Msg: fmt.Sprintf("cache entry %s has count %d", e.Name, e.Count)})
 		} else if int(e.Count) != total {
